@@ -7,6 +7,7 @@ class C11(core.Prop):
     drivers = [timing.DRIVER]
     sizes = {"quick": 1500, "thorough": 60000}
     max_workers = 6
+    ready = True
     technique = ("property-based testing (Hypothesis): generated actor-management programs run on the real kernel, their kernel-ordered log "
                  "replayed through a lifecycle specification (model-based oracle, exact dates)")
     rule = ("1-4 workers on 3 hosts (0-3 on_exit callbacks, daemon / kill-time / auto-restart properties; bodies of <=6 operations: sleep, exec, "
